@@ -22,6 +22,7 @@ from aws_durable_execution_sdk_python.concurrency.models import (
 )
 from aws_durable_execution_sdk_python.config import ChildConfig
 from aws_durable_execution_sdk_python.exceptions import (
+    CallableRuntimeError,
     OrphanedChildException,
     SuspendExecution,
     TimedSuspendExecution,
@@ -422,7 +423,7 @@ class ConcurrentExecutor(ABC, Generic[CallableType, ResultType]):
                         BatchItem(
                             executable.index,
                             BatchItemStatus.FAILED,
-                            error=ErrorObject.from_exception(executable.error),
+                            error=self._error_object_for(executable.error),
                         )
                     )
                 case (
@@ -436,6 +437,24 @@ class ConcurrentExecutor(ABC, Generic[CallableType, ResultType]):
                     )
 
         return BatchResult.from_items(batch_items, self.completion_config)
+
+    @staticmethod
+    def _error_object_for(error: Exception) -> ErrorObject:
+        """Error reported for a failed branch.
+
+        A branch fails with the CallableRuntimeError that child_handler built from the ErrorObject
+        it checkpointed. Report that recorded error (original type, data, stack trace) rather than
+        describing the wrapper, so that the result equals the one replay() rebuilds from the
+        branch's checkpoint.
+        """
+        if isinstance(error, CallableRuntimeError):
+            return ErrorObject(
+                message=error.message,
+                type=error.error_type,
+                data=error.data,
+                stack_trace=error.stack_trace,
+            )
+        return ErrorObject.from_exception(error)
 
     def _execute_item_in_child_context(
         self,
